@@ -203,3 +203,20 @@ where
         Self { stream, conn }
     }
 }
+
+/// Verification hook (see /verif/DESIGN.md): run the real `SelectAll` over `futures`.
+#[cfg(zlink_verif)]
+#[doc(hidden)]
+pub async fn verif_select_all<Fut>(
+    futures: &mut [Fut],
+    start_index: Option<usize>,
+) -> (usize, Fut::Output)
+where
+    Fut: core::future::Future + Unpin,
+{
+    let mut select_all = SelectAll::new(start_index);
+    for future in futures.iter_mut() {
+        select_all.push(future);
+    }
+    select_all.await
+}
